@@ -147,6 +147,22 @@ static bool valid_set_attr_len(enum xcm_attr_type type, size_t len)
     }
 }
 
+/* The value of a fixed-size type is always copied in full by its
+   get function. */
+static size_t min_get_capacity(enum xcm_attr_type type)
+{
+    switch (type) {
+    case xcm_attr_type_bool:
+	return sizeof(bool);
+    case xcm_attr_type_int64:
+	return sizeof(int64_t);
+    case xcm_attr_type_double:
+	return sizeof(double);
+    default:
+	return 0;
+    }
+}
+
 static struct attr_node *node_lookup(struct attr_node *root,
 				     const struct attr_path *path)
 {
@@ -271,6 +287,12 @@ int attr_tree_get_value(struct attr_tree *tree, const char *path_str,
     enum xcm_attr_type value_type = attr_node_value_get_value_type(value_node);
     if (type != NULL)
 	*type = value_type;
+
+    if (capacity < min_get_capacity(value_type)) {
+	LOG_ATTR_TREE_GET_FAILED(log_ref, EOVERFLOW);
+	errno = EOVERFLOW;
+	return -1;
+    }
 
     int rc = attr_node_value_get(value_node, value, capacity);
     if (rc < 0) {
